@@ -23,6 +23,57 @@ impl Signer for Recording {
     fn is_interactive(&self) -> bool { false }
 }
 
+/// a signer whose answer changes from one request to the next (hedged / randomized signatures, a rotating remote
+/// key, a one-shot token) and that counts its requests
+struct Changing {
+    sigs: Vec<[u8; 64]>,
+    n: std::cell::Cell<usize>,
+}
+impl Signer for Changing {
+    fn try_pubkey(&self) -> Result<Pubkey, SignerError> { Ok(Pubkey::default()) }
+    fn try_sign_message(&self, _message: &[u8]) -> Result<Signature, SignerError> {
+        let k = self.n.get();
+        self.n.set(k + 1);
+        Ok(Signature::from(self.sigs[k.min(self.sigs.len() - 1)]))
+    }
+    fn is_interactive(&self) -> bool { false }
+}
+
+/// each signer-based derivation asks the signer exactly once and derives from that one answer: with a signer that
+/// answers `sig` first and something else afterwards (another signature, the all-zero signature) the result is the
+/// key of `sig`, public and secret halves consistent
+fn changing_signer_check(ty: &str, sig: &[u8; 64], ps: &[u8], expect: &[u8]) -> Option<String> {
+    let mut other = *sig; other[0] ^= 0x55; other[40] ^= 0xaa;
+    for later in [other, [0u8; 64]] {
+        let mk = || Changing { sigs: vec![*sig, later], n: std::cell::Cell::new(0) };
+        match ty {
+            "elgamal" => {
+                let s = mk();
+                let k = ElGamalKeypair::new_from_signer(&s, ps).ok().map(|k| kp_bytes(&k));
+                if s.n.get() != 1 { return Some(format!("variant-mismatch:signer-asked-{}-times:keypair", s.n.get())) }
+                if k.as_deref() != Some(expect) { return Some("variant-mismatch:changing-signer:keypair".into()) }
+                let s = mk();
+                let k = ElGamalSecretKey::new_from_signer(&s, ps).ok().map(|x| x.as_bytes().to_vec());
+                if s.n.get() != 1 { return Some(format!("variant-mismatch:signer-asked-{}-times:secret", s.n.get())) }
+                if k.as_deref() != Some(&expect[32..]) { return Some("variant-mismatch:changing-signer:secret".into()) }
+                let s = mk();
+                let _ = ElGamalSecretKey::seed_from_signer(&s, ps);
+                if s.n.get() != 1 { return Some(format!("variant-mismatch:signer-asked-{}-times:seed", s.n.get())) }
+            }
+            _ => {
+                let s = mk();
+                let k = AeKey::new_from_signer(&s, ps).ok().map(ae_bytes);
+                if s.n.get() != 1 { return Some(format!("variant-mismatch:signer-asked-{}-times:aekey", s.n.get())) }
+                if k.as_deref() != Some(expect) { return Some("variant-mismatch:changing-signer:aekey".into()) }
+                let s = mk();
+                let _ = AeKey::seed_from_signer(&s, ps);
+                if s.n.get() != 1 { return Some(format!("variant-mismatch:signer-asked-{}-times:aeseed", s.n.get())) }
+            }
+        }
+    }
+    None
+}
+
 /// a signer that declines every request (a hardware wallet whose prompt was refused)
 struct Declining;
 impl Signer for Declining {
@@ -122,6 +173,7 @@ pub fn op_kdf(a: &[&str]) -> String {
                         // deterministic: a second call gives the same key
                         let k2 = ElGamalKeypair::new_from_signer(&s, &ps).ok();
                         if k2.map(|x| kp_bytes(&x)) != Some(kp_bytes(&k)) { return "nondeterministic".into() }
+                        if let Some(e) = changing_signer_check("elgamal", &sig, &ps, &kp_bytes(&k)) { return e }
                         format!("ok:{}:{}", hex(&kp_bytes(&k)), hex(&s.msg.borrow()))
                     }
                     Err(_) => "err".into(),
@@ -131,6 +183,7 @@ pub fn op_kdf(a: &[&str]) -> String {
                         let kb = ae_bytes(k);
                         let via_seed = AeKey::seed_from_signer(&s, &ps).ok().and_then(|sd| AeKey::from_seed(&sd).ok()).map(ae_bytes);
                         if via_seed.as_ref() != Some(&kb) { return "variant-mismatch".into() }
+                        if let Some(e) = changing_signer_check("ae", &sig, &ps, &kb) { return e }
                         format!("ok:{}:{}", hex(&kb), hex(&s.msg.borrow()))
                     }
                     Err(_) => "err".into(),
